@@ -4,6 +4,9 @@
 #   hop.py    HSN MAIO FN MA            -> ok RX TX | EXC <class>
 #   hop.pypnm N                         -> PNM | EXC <class>
 #   hop.freq  FH HSN MAIO FN MA RX0 TX0 -> init=<ok|EXC:c|-> rx=<v|None|EXC:c> tx=<…>   (FH: 0 none, 1 enable_fh, 2 enable_fh + disable_fh)
+#   hop.seq   RX0 TX0 | op ; op ; …     -> one answer token per op, space separated: ONE Transceiver object lives through the
+#                                          whole sequence   E HSN MAIO MA -> ok|EXC:c (enable_fh)   D -> - (disable_fh)
+#                                          Q FN -> rx/tx (get_rx_freq / get_tx_freq, each v|None|EXC:c)
 # oracle verbs (stateful, not mirrored by the Lean driver):
 #   o.setfh HSN MAIO MA                 -> ok | EXC <class>      keeps the HoppingParams object
 #   o.range FN COUNT                    -> COUNT results "rx" (space separated) of resolve(fn..fn+count-1)
@@ -71,6 +74,27 @@ for line in sys.stdin:
             print("init=%s rx=%s tx=%s" % (ini,
                   call(lambda: transceiver.Transceiver.get_rx_freq(trx, fn)),
                   call(lambda: transceiver.Transceiver.get_tx_freq(trx, fn))))
+        elif tok[0] == "hop.seq":
+            trx = new_trx(opt(tok[1]), opt(tok[2]))
+            res = []
+            for op in " ".join(tok[4:]).split(";"):
+                o = op.split()
+                if o[0] == "E":
+                    try:
+                        transceiver.Transceiver.enable_fh(trx, int(o[1]), int(o[2]), parse_ma(o[3]))
+                        res.append("ok")
+                    except Exception as e:
+                        res.append("EXC:%s" % type(e).__name__)
+                elif o[0] == "D":
+                    transceiver.Transceiver.disable_fh(trx)
+                    res.append("-")
+                elif o[0] == "Q":
+                    fn = int(o[1])
+                    res.append("%s/%s" % (call(lambda: transceiver.Transceiver.get_rx_freq(trx, fn)),
+                                          call(lambda: transceiver.Transceiver.get_tx_freq(trx, fn))))
+                else:
+                    res.append("bad-op")
+            print(" ".join(res))
         elif tok[0] == "o.setfh":
             cur = None
             cur = gsm_shared.HoppingParams(int(tok[1]), int(tok[2]), parse_ma(tok[3]))
